@@ -12,7 +12,7 @@ hx = lambda b: b.hex() if b else "-"
 def gen_case(rng, idx, d):
     """-> (line, list of (op, addr, expectation-or-None))"""
     tag = "%d-%d" % (os.getpid(), idx)
-    port = 31000 + idx % 20000
+    port = 20000 + idx % 10000     # below the kernel's ephemeral range (32768-60999), which other processes' outgoing connections use
     tails = [b"", b"", b";k=v", b";", b";;a:b", b";mode=0600;x"]
 
     def unix_forms():
@@ -172,6 +172,18 @@ def main(pid, argv):
         shutil.rmtree(d, ignore_errors=True)
     model = V.run_model_parallel("addr-run", lines)
     ck.evaluations = len(lines)
+
+    def retry_ok(line, ml):
+        # the history names paths in the scratch directory of the first run: recreate it
+        os.makedirs(d, exist_ok=True)
+        try:
+            for _ in range(2):
+                rc, out, err = V.run_lines([bins["h_addr"], d], [line], timeout=120)
+                if out and out[0] == ml:
+                    return True
+            return False
+        finally:
+            shutil.rmtree(d, ignore_errors=True)
     nf = 0
     for (line, ops), il, ml in zip(cs, impl, model):
         res = il.split(" ")
@@ -194,6 +206,9 @@ def main(pid, argv):
         if bad:
             nf += 1
             ck.fail("addr-history", line, bad, impl=il[:600], model=ml[:600])
+        elif il != ml and ops is not None and any(o[0] in ("bind", "listen") and o[3] == "tcp" and b":0" not in o[1] for o in ops) and retry_ok(line, ml):
+            # a fixed TCP port can be taken by another process of this machine at the wrong moment: that is the environment, not the library
+            ck.count("tcp-port-retry")
         elif il != ml and ops is not None:
             ck.tie_broken("history results differ from the model", line[:800], il[:400], ml[:400])
     ck.extra["failing_inputs_total"] = nf
